@@ -83,7 +83,7 @@ def _split_assign(norm):
     return None
 
 
-def abstract(body, mats, vecs, nonneg=("norm", "maxCoeff"), keep_rx=None, report=None):
+def abstract(body, mats, vecs, nonneg=("norm", "maxCoeff"), keep_rx=None, report=None, track_uses=()):
     """Replace every statement carrying an Eigen marker.  mats / vecs: names (without `S->` style prefixes) of matrix-
     and vector-typed objects in scope.  Returns new body; appends normalized statement texts to report."""
     pos = 0
@@ -119,6 +119,14 @@ def abstract(body, mats, vecs, nonneg=("norm", "maxCoeff"), keep_rx=None, report
             pc = match_close(norm, me.end() - 1)
             chk.append("(void)MAT_ELEM(%s);" % norm[me.end():pc])
         sa = _split_assign(norm)
+        if track_uses:
+            # typestate of tracked vectors: a statement that READS one (anywhere but as the plain target of `x[.noalias()] = ...`) carries a VUSE_<name> check
+            rd = norm
+            if sa and re.match(r"^(\w+)(?:\.noalias\(\))?$", sa[0]) and sa[1] == "=":
+                rd = sa[2]
+            for tv in track_uses:
+                if re.search(r"(?<![\w.>])%s\b" % re.escape(tv), rd):
+                    chk.append("VUSE_%s;" % tv)
         base_of = lambda t: re.sub(r"\.(col|head|tail|leftCols|rightCols|block|noalias|array)\(.*$", "", t).split("->")[-1].split(".")[-1]
         nn = lambda rhs: any(("." + k + "(") in rhs for k in nonneg)
         eff = None
